@@ -688,6 +688,9 @@ class _MutableSetMixin:
         if it is self:
             self.clear()
         else:
+            if not isinstance(it, _Base):
+                # toggle every key once, however often *it* yields it
+                it = self._set_type(it)
             for value in it:
                 if value in self:
                     self.discard(value)
